@@ -223,6 +223,21 @@ def run_checks(ctx, n_eig, n_fun, n_dense):
         items.append(('benc (check_prod %s %s %s %s)' % (qm(Rm), qm(U), qm(G), qtol(TOL * nG)), dict(check='polar R*U=F', kind=kind, gap=gap, batch=False, A=G.tolist())))
         items.append(('benc (check_prod %s %s %s %s)' % (qm(Rm.T), qm(Rm), qm(onp.eye(3)), tq), dict(check='polar R^T R=I', kind=kind, gap=gap, batch=False, A=G.tolist())))
         items.append(('benc (check_symmetric %s %s)' % (qm(U), qtol(TOL * math.sqrt(nG * nG))), dict(check='polar U symmetric', kind=kind, gap=gap, batch=False, A=G.tolist())))
+    # ---- detpIm1 against the exact rational value of det(A+I)-1 (python Fractions; a test, the identity itself is theorem C12_detpIm1)
+    from fractions import Fraction
+    jd = jf('detpIm1', TM.detpIm1, False)
+    for k in range(max(10, n_fun)):
+        mag = 10.0 ** r.uniform(-12, 0)
+        A = [[mag * r.uniform(-1, 1) for _ in range(3)] for _ in range(3)]
+        Fq = [[Fraction(A[i][j]) + (1 if i == j else 0) for j in range(3)] for i in range(3)]
+        dq = (Fq[0][0] * (Fq[1][1] * Fq[2][2] - Fq[1][2] * Fq[2][1]) - Fq[0][1] * (Fq[1][0] * Fq[2][2] - Fq[1][2] * Fq[2][0])
+              + Fq[0][2] * (Fq[1][0] * Fq[2][1] - Fq[1][1] * Fq[2][0])) - 1
+        got = float(jd(np.array(A)))
+        ctx.count('detpIm1_checks')
+        scale = sum(abs(A[i][i]) for i in range(3)) + 3 * mag * mag
+        if not abs(Fraction(got) - dq) <= Fraction(16 * 2.220446049250313e-16 * scale):
+            ctx.fail('conclusion', 'detpIm1 differs from the exact det(A+I)-1 by %.3g at |A| ~ %.3g' % (float(abs(Fraction(got) - dq)), mag),
+                     case=dict(check='detpIm1', kind='helper', gap=1.0, batch=False, A=A, value=got, exact=float(dq)), concrete=True)
     # ---- dense square root and logarithm, sizes 2..10
     for k in range(n_dense):
         n = 2 + (k % 9)
